@@ -331,7 +331,7 @@ def c12(ctx):
     ctx.model_check("WalBackup.tla", "cfg/wal_backup_nomaint.cfg", expect_violation="*", timeout=900)
     outs = seq_jobs(ctx, "backup-inject", 12, 3 if q else 24, 120, 24, ALLFS, ["-backup"])
     outs += stress_jobs(ctx, "backup-concurrent", 8, 6 if q else 80, 30, 40, ALLFS, ["-maint", "-grow"], workers=2)
-    rejs = ctx.validate(outs, dfs=True, soft_timeout=600)
+    rejs = ctx.validate(outs, dfs=True, soft_timeout=180 if q else 600)
     ctx.sample_from(outs[0], 1)
     ctx.report_rejections(rejs, describe_generic)
     h = ctx.cov["harness"]
@@ -381,7 +381,7 @@ def c07(ctx):
     outs += stress_jobs(ctx, "stress-slowfs", 8, 10 if q else 150, 14, 4, ALLFS, ["-maint", "-slowfs"], workers=3)
     jobs, o2 = fault_jobs(ctx, "seq", 4, 6 if q else 60, 50, 5, ["-inject"])
     add_stats(ctx, ctx.vrun_parallel(jobs), "compact-inject")
-    rejs = ctx.validate(outs + o2, dfs=True, soft_timeout=600)
+    rejs = ctx.validate(outs + o2, dfs=True, soft_timeout=180 if q else 600)
     ctx.sample_from(outs[0], 1)
     ctx.report_rejections(rejs, describe_generic)
     h = ctx.cov["harness"]
@@ -457,7 +457,7 @@ def c10(ctx):
             f.write(json.dumps({"e": "fault", "what": crash, "fs": fsn}) + "\n")
     ctx.cov["race_reports"] = len(races)
     ctx.cov["process_crashes"] = len(getattr(ctx, "crashes", []))
-    rejs = ctx.validate(outs + ([extra] if races or getattr(ctx, "crashes", []) else []), dfs=True, soft_timeout=600)
+    rejs = ctx.validate(outs + ([extra] if races or getattr(ctx, "crashes", []) else []), dfs=True, soft_timeout=180 if q else 600)
     ctx.sample_from(outs[0], 1)
 
     def describe(rej):
